@@ -1,0 +1,72 @@
+//go:build verif
+
+// Contracts for the deductive verification in /verif (comment-only; no declarations).
+// Syntax: /verif/DESIGN.md section 5. Obligations are generated from the SSA of the
+// functions named here; nothing in this file is compiled into the package.
+
+package jsonpatch
+
+// Package-level error values: what errors.Is reports for each (the attribute functions are
+// "errors.Is(e, ErrX)" resp. "errors.As(e, *AccumulatedCopySizeError)"); assumed established by
+// the package initialiser and never reassigned (A-sentinel, checked by the global-write scan).
+//@ ginv sentinel-missing: ErrMissing != nil && isMissing(ErrMissing) && !isTestFailed(ErrMissing) && !isInvalidIndex(ErrMissing) && !isInvalid(ErrMissing) && !isCopyLimit(ErrMissing)
+//@ ginv sentinel-testfailed: ErrTestFailed != nil && isTestFailed(ErrTestFailed) && !isMissing(ErrTestFailed) && !isInvalidIndex(ErrTestFailed) && !isInvalid(ErrTestFailed) && !isCopyLimit(ErrTestFailed)
+//@ ginv sentinel-invalidindex: ErrInvalidIndex != nil && isInvalidIndex(ErrInvalidIndex) && !isMissing(ErrInvalidIndex) && !isTestFailed(ErrInvalidIndex) && !isInvalid(ErrInvalidIndex) && !isCopyLimit(ErrInvalidIndex)
+//@ ginv sentinel-invalid: ErrInvalid != nil && isInvalid(ErrInvalid) && !isMissing(ErrInvalid) && !isTestFailed(ErrInvalid) && !isInvalidIndex(ErrInvalid) && !isCopyLimit(ErrInvalid)
+//@ ginv sentinel-unknowntype: ErrUnknownType != nil && !isInvalid(ErrUnknownType) && !isMissing(ErrUnknownType) && !isTestFailed(ErrUnknownType) && !isInvalidIndex(ErrUnknownType) && !isCopyLimit(ErrUnknownType)
+//@ ginv sentinel-expectedobject: ErrExpectedObject != nil && !isInvalid(ErrExpectedObject) && !isMissing(ErrExpectedObject) && !isTestFailed(ErrExpectedObject) && !isInvalidIndex(ErrExpectedObject) && !isCopyLimit(ErrExpectedObject)
+
+//@ func (*partialArray).get
+//@   requires recv: d != nil && options != nil
+//@   modifies nothing
+//@   let n = len(d.nodes)
+//@   let neg = options.SupportNegativeIndices
+//@   ensures[C01,C13] ok-iff: (err == nil) <==> idxRefOK(key, n, neg)
+//@   ensures[C01] value: err == nil ==> result.0 == d.nodes[idxRefVal(key, n)]
+//@   ensures[C01,C08] nil-on-error: err != nil ==> result.0 == nil
+//@   ensures[C08] attrs: !isTestFailed(err) && !isMissing(err) && !isCopyLimit(err)
+//@   ensures[C08] invalid-index: err != nil && atoiOK(key) ==> isInvalidIndex(err)
+
+//@ func (*partialArray).set
+//@   requires recv: d != nil && options != nil
+//@   requires exists: idxRefOK(key, len(d.nodes), options.SupportNegativeIndices)
+//@   modifies elems(d.nodes)
+//@   let n = len(d.nodes)
+//@   ensures[C01] ok: err == nil
+//@   ensures[C01] header: d.nodes == old(d.nodes)
+//@   ensures[C01] at: d.nodes[idxRefVal(key, n)] == val
+//@   ensures[C01,C05] others: forall j int :: 0 <= j && j < n && j != idxRefVal(key, n) ==> d.nodes[j] == old(d.nodes[j])
+
+//@ func (*partialArray).add
+//@   requires recv: d != nil && options != nil
+//@   modifies d.nodes, elems(d.nodes)
+//@   let n = old(len(d.nodes))
+//@   let neg = options.SupportNegativeIndices
+//@   let ix = idxAddVal(key, n)
+//@   ensures[C01] ok-iff: (err == nil) <==> idxAddOK(key, n, neg)
+//@   ensures[C01] len: err == nil ==> len(d.nodes) == n + 1
+//@   ensures[C01] at: err == nil ==> d.nodes[ix] == val
+//@   ensures[C01,C05] below: err == nil ==> forall j int :: 0 <= j && j < ix ==> d.nodes[j] == old(d.nodes[j])
+//@   ensures[C01,C05] above: err == nil ==> forall j int :: ix < j && j <= n ==> d.nodes[j] == old(d.nodes[j-1])
+//@   ensures[C01,C08] unchanged-on-error: err != nil ==> d.nodes == old(d.nodes)
+//@   ensures[C01,C05] old-cells-kept: forall j int :: 0 <= j && j < n ==> old(d.nodes)[j] == old(d.nodes[j])
+//@   ensures[C08] attrs: !isTestFailed(err) && !isMissing(err) && !isCopyLimit(err)
+//@   ensures[C08] invalid-index: err != nil && atoiOK(key) ==> isInvalidIndex(err)
+
+//@ func (*partialArray).remove
+//@   requires recv: d != nil && options != nil
+//@   modifies d.nodes
+//@   let n = old(len(d.nodes))
+//@   let neg = options.SupportNegativeIndices
+//@   let allow = options.AllowMissingPathOnRemove
+//@   let ix = idxRefVal(key, n)
+//@   let beyond = atoiOK(key) && (atoiVal(key) >= n || (neg && atoiVal(key) < 0 - n))
+//@   ensures[C01,C13] removes-iff: idxRefOK(key, n, neg) ==> err == nil && len(d.nodes) == n - 1
+//@   ensures[C01,C13] below: idxRefOK(key, n, neg) ==> forall j int :: 0 <= j && j < ix ==> d.nodes[j] == old(d.nodes[j])
+//@   ensures[C01,C13] above: idxRefOK(key, n, neg) ==> forall j int :: ix <= j && j < n - 1 ==> d.nodes[j] == old(d.nodes[j+1])
+//@   ensures[C01,C13] unchanged-otherwise: !idxRefOK(key, n, neg) ==> d.nodes == old(d.nodes)
+//@   ensures[C13] absent-skipped: !idxRefOK(key, n, neg) && beyond && allow ==> err == nil
+//@   ensures[C01,C13] absent-fails: !idxRefOK(key, n, neg) && !(beyond && allow) ==> err != nil
+//@   ensures[C08] attrs: !isTestFailed(err) && !isMissing(err) && !isCopyLimit(err)
+//@   ensures[C08] invalid-index: err != nil && atoiOK(key) ==> isInvalidIndex(err)
+//@   ensures[C01,C05] old-cells-kept: forall j int :: 0 <= j && j < n ==> old(d.nodes)[j] == old(d.nodes[j])
